@@ -469,6 +469,7 @@ func runC04Full(c *Ctx) {
 	checkExitCodes(c, p, "R04.4")
 	checkItemIdentity(c, p, "R04.6")
 	checkItemKeyInjective(c, p, "R04.7")
+	checkSymbolNamespace(c, p, "R04.8")
 	checkFirstSteps(c, p, "R04.5")
 	checkLR1Steps(c, p, "R04.5")
 	checkItemSetOps(c, p, "R04.5")
